@@ -333,7 +333,10 @@ def putConn (s0 : State) (c : Option Nat) : State × Option Exc :=
 /-- `_new_conn()` of the pool: a fresh, unconnected connection object -/
 def newConn (s : State) : State × Nat := ({ s with conns := s.conns ++ [{}] }, s.conns.length)
 
-/-- `_get_conn(timeout=pool_timeout)` (with a finite `pool_timeout`) -/
+/-- `_get_conn(timeout=pool_timeout)` (with a finite, non-negative `pool_timeout`).  The statements after
+`self.pool.get(…)` (`is_connection_dropped`, `conn.close()`, `self._new_conn()`) stand in a
+`try: … except BaseException: self._put_conn(None); raise`; none of them has a failure point in this model, so
+the handler does not appear: whenever `getConn` fails, nothing has been taken (`getConn_error_state`) -/
 def getConn (s : State) : State × Except Exc Nat :=
   if s.closed then (s, .error (exc Gen.cU3ClosedPoolError)) else
   match s.queue with
@@ -345,6 +348,13 @@ def getConn (s : State) : State × Except Exc Nat :=
     match item with
     | none => let (s2, c) := newConn s1; (s2, .ok c)
     | some c => ((if isDropped s1 c then connClose s1 c else s1), .ok c)
+
+/-- `_get_conn(timeout=pool_timeout)` for any `pool_timeout`: after the `if self.pool is None` test,
+`self.pool.get(block=self.block, timeout=timeout)` raises `ValueError("'timeout' must be a non-negative number")`
+for a negative timeout when (and only when) `block` is true — whether or not the queue is empty; it is neither
+`queue.Empty` nor `AttributeError`, so it leaves `_get_conn` as it is, and nothing has been taken from the queue -/
+def getConnT (s : State) (badPoolTimeout : Bool) : State × Except Exc Nat :=
+  if !s.closed && s.block && badPoolTimeout then (s, .error (exc Gen.cValueError)) else getConn s
 
 /-- `HTTPConnection._new_conn`'s translation of what `create_connection` raised -/
 def translateNewConn (c : Cls) : Exc :=
@@ -892,6 +902,8 @@ structure ReqCfg where
   bodyPos : Bool := false           -- `body_pos is not None` on entry (passed by the caller, or recorded by the
                                     -- previous invocation of the chain)
   badTimeout : Bool := false        -- the per-request `timeout` is one that `Timeout` rejects (`ValueError`)
+  badPoolTimeout : Bool := false    -- `pool_timeout` is negative: `queue.get(block=True, timeout=…)` rejects it
+                                    -- (`ValueError`); a `block=False` pool never looks at it
 deriving Repr
 
 inductive RespOut | resp (r : Nat) | exc (e : Exc)
@@ -1007,12 +1019,13 @@ def handleError (unconnected : Bool) (retries : Retry) (methodRetryable : Bool) 
     | .ok r => .retry r
   else .propagate
 
-/-- the `finally` clause for `clean_exit = False`: `conn.close(); conn = None; self._put_conn(None)` -/
+/-- the `finally` clause for `clean_exit = False`.  With a connection (`if conn:`):
+`conn.close(); conn = None; release_this_conn = True`, hence `self._put_conn(None)`.  Without one (`else:` —
+`_get_conn()` raised, nothing was taken from the pool): `release_this_conn = False`, nothing is put back -/
 def discard (s : State) (c : Option Nat) : State × Option Exc :=
-  let s := match c with
-    | some i => connClose s i
-    | none => s
-  putConn s none
+  match c with
+  | some i => putConn (connClose s i) none
+  | none => (s, none)
 
 def isRedirect (s : State) (r : Nat) (h : Bool) : Bool :=
   h && (match s.resps[r]? with
@@ -1063,8 +1076,9 @@ def request (s : State) (rid : Nat) (rc : ReqCfg) (retries : Retry) : List Attem
     | none =>
     -- clean_exit = False; release_this_conn = release_conn; conn = None
     -- try: conn = self._get_conn(timeout=pool_timeout)
-    match getConn s with
+    match getConnT s rc.badPoolTimeout with
     | (s, .error e) =>
+      -- `conn` is still `None` in the `finally` clause: `discard s none` puts nothing back
       match handleError false retries rc.methodRetryable e.cls with
       | .noCleanup => (s, .raised e)    -- EmptyPoolError: clean_exit = True, release_this_conn = False
       | .propagate => match discard s none with
